@@ -8,7 +8,8 @@ def gen_consts(v):
     ents = [(n, 'ola::dmx::' + n) for n in
             ('SOURCE_PRIORITY_MIN', 'SOURCE_PRIORITY_DEFAULT', 'SOURCE_PRIORITY_MAX')]
     ents += [(n, 'ola::' + n) for n in ('PRIORITY_MODE_INHERIT', 'PRIORITY_MODE_STATIC')]
-    return v.gen_consts_cpp(ID, ['ola/dmx/SourcePriorities.h', 'olad/PortConstants.h'], ents,
+    ents += [('U8_LIMIT', '(unsigned long long)UINT8_MAX + 1'), ('UINT_LIMIT', '(unsigned long long)UINT_MAX + 1')]
+    return v.gen_consts_cpp(ID, ['limits.h', 'ola/dmx/SourcePriorities.h', 'olad/PortConstants.h'], ents,
                             os.path.join(v.VERIF, 'props', ID, 'coq', 'Gen.v'))
 
 # r<k> = return value of op k, d<k> = state dump after op k (per-port universe/priority/mode,
@@ -141,7 +142,8 @@ def rand_op(rng, devs, ports, pool):
     if r < 0.655: return 'N.%d' % rng.randrange(len(devs) + 1)
     if r < 0.67: return rng.choice(['NA', 'RA.%d.%d' % (n, c), 'RU.%d.%d' % (n, c), 'RU.%d.%d' % (n, c),
                                     'F.%d.%d' % (n, c), 'F.%d.%d' % (n, c), 'H', 'H'])
-    if r < 0.72: return 'S.%d.%d' % (p, rng.choice(PRIOS + [rng.randrange(256)]))
+    if r < 0.71: return 'S.%d.%d' % (p, rng.choice(PRIOS + [rng.randrange(256)]))
+    if r < 0.72: return 'Q.%d.%d' % (p, rng.choice(PRIOS + [rng.randrange(256)]))
     if r < 0.75: return 'I.%d' % p
     if r < 0.80: return 'KA.%d.%d' % (n, c)
     if r < 0.84: return 'KR.%d.%d' % (n, c)
@@ -196,7 +198,7 @@ def directed(rng, devs, ports, pool):
     elif kind == 5:
         # priorities around the clamp
         p = rng.randrange(np_)
-        ops = ['S.%d.%d' % (p, v) for v in rng.sample(PRIOS, 4)] + ['I.%d' % p, 'S.%d.%d' % (p, rng.choice(PRIOS))]
+        ops = ['%s.%d.%d' % (rng.choice('SSQ'), p, v) for v in rng.sample(PRIOS, 5)] + ['I.%d' % p, 'Q.%d.%d' % (p, rng.choice(PRIOS)), 'S.%d.%d' % (p, rng.choice(PRIOS))]
     elif kind == 7:
         # register restores preloaded / saved settings (patch may be vetoed or refused by policy)
         d = rng.randrange(len(devs))
@@ -353,10 +355,11 @@ LEVEL_TEXT = ('Coq theorems over an executable model of port patching (PortManag
               '<=> the port ended on the requested universe, an existing port is in the broker <=> patched, unregister+'
               'stop leaves none of the device\'s ports listed.  The model is the code with fixes/01-03 applied and is '
               'tied to the C++ by a differential correspondence check after every operation (ASan/UBSan build of the '
-              'working tree).  Round 4 adds DMX frames and housekeeping (GC + CleanStaleSourceClients, per-client stale flag): '
-              'invariant, lifetime, a frame makes the client a fresh referrer, a fresh referrer and its universe survive a '
-              'housekeeping run; that the other operations leave source-client lists and flags alone is covered by the '
-              'correspondence only.  Not covered: the PortBroker keeps the keys of ports deleted by Device::Stop (proved '
+              'working tree).  Over the complete op set (incl. DMX frames, housekeeping = GC + CleanStaleSourceClients with the '
+              'per-client stale flag, Port::SetPriority on the port): the full invariant; a client that sent a frame since the '
+              'last-but-one housekeeping run and was not explicitly removed is still a source client of its still-live '
+              'universe after ANY history; Device::Stop clears every port of the device whatever its hooks say; a '
+              'collection saves exactly the unused universes once each and frees exactly those.  Not covered: the PortBroker keeps the keys of ports deleted by Device::Stop (proved '
               'as stated, reported as a finding outside the property text); preference file parsing is C18.')
 LEVEL_NOTE = ('Trusted: Coq kernel, extraction (ExtrOcamlBasic), OCaml/C++ glue, generator coverage of the '
               'correspondence (model = code is validated by differential testing, not proved); the plugin veto is '
